@@ -137,7 +137,8 @@ type ReplayFile struct {
 	Seed      uint64      `json:"seed"`
 	Run       int         `json:"run"`
 	Race      bool        `json:"race_build"`
-	Mode      string      `json:"mode"` // "tape": replay Tape; "crash": the process dies (race report / fatal error) while replaying Tape
+	Instr     bool        `json:"instrumented"` // built against the instrumented scratch copy (yield point before every statement)
+	Mode      string      `json:"mode"`         // "tape": replay Tape; "crash": the process dies (race report / fatal error) while replaying Tape
 	Tape      []uint64    `json:"tape"`
 	Labels    []string    `json:"labels,omitempty"`
 	Detail    []string    `json:"detail"`
@@ -153,8 +154,11 @@ func WriteReplay(rf *ReplayFile) (string, error) {
 		return "", err
 	}
 	suffix := ""
+	if rf.Instr {
+		suffix += "-instr"
+	}
 	if rf.Race {
-		suffix = "-race"
+		suffix += "-race"
 	}
 	p := filepath.Join(dir, fmt.Sprintf("%s-%d-%d%s.json", rf.Property, rf.Seed, rf.Run, suffix))
 	b, _ := json.MarshalIndent(rf, "", " ")
